@@ -164,7 +164,11 @@ def run_tlc(ctx, family, module, cfg, mode="mc", workers=None, files=None, timeo
     else:
         cfgname = cfg
     if workers is None:
-        workers = 1 if mode == "trace" else min(NCPU, 8)
+        try:
+            busy = os.getloadavg()[0] > NCPU
+        except OSError:
+            busy = False
+        workers = 1 if mode == "trace" else (4 if busy else min(NCPU, 8))
     cmd = ["tlc", "-workers", str(workers), "-metadir", os.path.join(d, "md"), "-config", cfgname]
     if simulate:
         cmd += ["-simulate", simulate]
@@ -180,9 +184,10 @@ def run_tlc(ctx, family, module, cfg, mode="mc", workers=None, files=None, timeo
     if dfs:
         jopts.append("-Dtlc2.tool.queue.IStateQueue=StateDeque")
     jopts.append("-Xss64m")
-    if heap:
-        jopts.append("-Xmx" + heap)
+    jopts.append("-Xmx" + (heap or ("3g" if mode == "trace" else "6g")))
+    jopts.append("-XX:ParallelGCThreads=%d" % (2 if mode == "trace" else 4))
     env["JAVA_TOOL_OPTIONS"] = " ".join(jopts)
+    slot = _acquire_tlc_slot()
     t0 = time.time()
     try:
         p = subprocess.run(["timeout", str(timeout)] + cmd, cwd=d, env=env, stdout=subprocess.PIPE,
@@ -190,6 +195,8 @@ def run_tlc(ctx, family, module, cfg, mode="mc", workers=None, files=None, timeo
         out, rc = p.stdout, p.returncode
     except Exception as e:  # pragma: no cover
         raise Inconclusive("tlc failed to start: %s" % e)
+    finally:
+        _release_tlc_slot(slot)
     wall = time.time() - t0
     with open(os.path.join(d, "tlc.out"), "w") as f:
         f.write(out)
@@ -204,6 +211,32 @@ def run_tlc(ctx, family, module, cfg, mode="mc", workers=None, files=None, timeo
     if coverage:
         res.cov_zero = re.findall(r"^<(\w+) line .*>: 0:0$", out, re.M)
     return res
+
+
+TLC_SLOTS = int(os.environ.get("VERIF_TLC_SLOTS", "10"))
+
+
+def _acquire_tlc_slot():
+    """System-wide cap on concurrent TLC JVMs (several checks may run at once): a pool of lock files."""
+    import fcntl
+    d = os.path.join(WORK, ".tlcslots")
+    os.makedirs(d, exist_ok=True)
+    while True:
+        for i in range(TLC_SLOTS):
+            f = open(os.path.join(d, "slot%d" % i), "w")
+            try:
+                fcntl.flock(f, fcntl.LOCK_EX | fcntl.LOCK_NB)
+                return f
+            except OSError:
+                f.close()
+        time.sleep(0.5)
+
+
+def _release_tlc_slot(f):
+    try:
+        f.close()
+    except Exception:
+        pass
 
 
 def require_mc_ok(ctx, res, what, allow_timeout=False):
@@ -342,7 +375,7 @@ def validate_by_cursor(ctx, family, module, cfg, scenarios, chunk=400, max_rejec
                 break
         return rej, acc, st
 
-    with cf.ThreadPoolExecutor(max_workers=max(1, min(NCPU // 2, len(chunks)))) as ex:
+    with cf.ThreadPoolExecutor(max_workers=max(1, min(6, len(chunks)))) as ex:
         for rej, acc, st in ex.map(do_chunk, chunks):
             rejected += rej
             accepted += acc
